@@ -20,7 +20,7 @@ import (
 	"strings"
 )
 
-func init() { Register("C11", genC11) }
+func init() { Register("C11", genC11); Register("C11", genC11Array) }
 
 type c11fn struct {
 	recv, name string
@@ -35,8 +35,9 @@ type c11fn struct {
 }
 
 type c11tr struct {
-	p  *Pkg
-	fn *c11fn
+	p      *Pkg
+	fn     *c11fn
+	labels map[string][]ast.Stmt // label -> the labelled statement and everything after it in the function body (goto targets)
 }
 
 func (t *c11tr) text(n ast.Node) string {
@@ -183,6 +184,16 @@ func (t *c11tr) stmts(list []ast.Stmt, rest string) (string, error) {
 	}
 	if c11IsPanic(s) {
 		return ".typeError", nil
+	}
+	if ls, ok := s.(*ast.LabeledStmt); ok { // a label is only a goto target: translate the statement it marks
+		return t.stmts(append([]ast.Stmt{ls.Stmt}, list[1:]...), rest)
+	}
+	if br, ok := s.(*ast.BranchStmt); ok && br.Tok == token.GOTO && br.Label != nil {
+		target, ok := t.labels[br.Label.Name]
+		if !ok {
+			return "", t.errf(s, "goto to an unknown label")
+		}
+		return t.stmts(target, "%END%") // the label is in the function's top-level block: its tail runs to the end
 	}
 	switch x := s.(type) {
 	case *ast.ReturnStmt:
@@ -1025,6 +1036,27 @@ func genC11(p *Pkg) (map[string]string, error) {
 	}
 	b.WriteString("]\n\n")
 
+	// enumeration helpers (Enumerate.lean): normalised text of the loops that filter the proxy's own keys
+	b.WriteString("/-- normalised text of proxyObject.keys / filterKeys / stringKeys / symbols (string literals blanked) -/\n")
+	b.WriteString("def enumTexts : List (String × String) := [\n")
+	{
+		names := []string{"keys", "filterKeys", "stringKeys", "symbols"}
+		for i, name := range names {
+			fd := p.FuncDecl("proxyObject", name)
+			if fd == nil {
+				return nil, fmt.Errorf("method proxyObject.%s not found", name)
+			}
+			var bb bytes.Buffer
+			printer.Fprint(&bb, p.Fset, fd.Body)
+			sep := ","
+			if i == len(names)-1 {
+				sep = ""
+			}
+			fmt.Fprintf(&b, "  (%s, %s)%s\n", LeanString(name), LeanString(c11DropStrings(strings.Join(c11Tokenize(bb.String()), " "))), sep)
+		}
+	}
+	b.WriteString("]\n\n")
+
 	// checkHandler itself: `if handler := p.handler; handler != nil { return handler }; panic(TypeError)`
 	ch := p.FuncDecl("proxyObject", "checkHandler")
 	rv := p.FuncDecl("proxyObject", "revoke")
@@ -1063,4 +1095,55 @@ func c11ShortName(path string) string {
 		return path[i+1:]
 	}
 	return path
+}
+
+// ---- array.go: defineArrayLength (the decision function behind Object.defineProperty(array, "length", …)) -> C11_Array.lean
+
+var c11ArrayFn = &c11fn{
+	recv: "Runtime", name: "defineArrayLength", lean: "gen_defineArrayLength",
+	sig: "(prop : LenProp) (oldLen : Nat) (descr : Desc) (newLenOf : Option Nat) (setter : Nat → Bool) (throw : Bool) : Out (Bool × Bool)",
+	exprs: map[string]string{
+		"descr.Value": "descr.value", "descr.Configurable": "descr.configurable", "descr.Enumerable": "descr.enumerable",
+		"descr.Getter": "descr.getter", "descr.Setter": "descr.setter", "descr.Writable": "descr.writable",
+		"descr.Writable.Bool()":          "descr.writable.bool",
+		"uint32(prop.value.ToInteger())": "oldLen",
+		"setter(newLen, false)":          "(setter newLen)",
+		"prop.writable":                  "prop.writable",
+		"newLen":                         "newLen", "oldLen": "oldLen", "ret": "ret", "w": "w", "throw": "throw",
+		"zero:uint32": "(0 : Nat)",
+	},
+	stmts: map[string]string{
+		"newLen = r.toLengthUint32(descr.Value)": "match newLenOf with\n | none => .typeError\n | some n => (let newLen := n\n%REST%)",
+	},
+	fields: map[string]string{"writable": "writable"},
+	rets:   map[string]string{"ret": "(.ok (ret, prop.writable))"},
+	end:    "", sel: c11WholeBody,
+}
+
+func genC11Array(p *Pkg) (map[string]string, error) {
+	fn := c11ArrayFn
+	fd := p.FuncDecl(fn.recv, fn.name)
+	if fd == nil {
+		return nil, fmt.Errorf("function (%s).%s not found", fn.recv, fn.name)
+	}
+	t := &c11tr{p: p, fn: fn, labels: map[string][]ast.Stmt{}}
+	for i, st := range fd.Body.List {
+		if ls, ok := st.(*ast.LabeledStmt); ok {
+			t.labels[ls.Label.Name] = fd.Body.List[i:]
+		}
+	}
+	s, err := t.stmts(fd.Body.List, "%END%")
+	if err != nil {
+		return nil, err
+	}
+	if strings.Contains(s, "%END%") {
+		return nil, fmt.Errorf("%s: control can reach the end of the translated body", fn.name)
+	}
+	pos := p.Fset.Position(fd.Pos())
+	var b strings.Builder
+	b.WriteString("-- GENERATED by extract/c11.go from /repo/array.go — do not edit.\n")
+	b.WriteString("import GojaModel.C11.Model\nimport GojaModel.C11.ArrayMech\n\nset_option linter.unusedVariables false\n\nnamespace GojaModel.Generated.C11\nopen GojaModel.C11\n\n")
+	fmt.Fprintf(&b, "/-- %s:%d (%s).%s -/\ndef %s %s :=\n%s\n\n", c11ShortName(pos.Filename), pos.Line, fn.recv, fn.name, fn.lean, fn.sig, c11Indent(s, 2))
+	b.WriteString("end GojaModel.Generated.C11\n")
+	return map[string]string{"C11_Array.lean": b.String()}, nil
 }
